@@ -326,6 +326,33 @@ def native(cmd, timeout=600):
     return out
 
 
+def zw_queries(queries, outdir):
+    """Native replay through the real library: refresh /repo/_build's objects from the working tree
+    (incremental ninja build), link tools/zwq.cc against LibzwergCore + TestZwAux objects, run the queries.
+    Returns list of (count, text) or raises Undecided when the repository build tree is not available."""
+    bdir = os.path.join(REPO, '_build')
+    if not os.path.isdir(bdir):
+        raise Undecided('no /repo/_build to link the query runner against')
+    run(['cmake', '--build', bdir, '-j16', '--', '-k', '0'], timeout=1800, mem_gb=32)
+    import glob
+    objs = glob.glob(os.path.join(bdir, 'libzwerg/CMakeFiles/TestZwAux.dir/*.o')) + \
+        glob.glob(os.path.join(bdir, 'libzwerg/CMakeFiles/LibzwergCore.dir/*.o'))
+    exe = os.path.join(outdir, 'zwq')
+    native(['g++', '-std=c++14', '-O1', '-I%s/libzwerg' % REPO, '-I%s/libzwerg' % bdir, '-I' + bdir,
+            os.path.join(VERIF, 'tools', 'zwq.cc')] + objs + ['-rdynamic', '-o', exe])
+    rc, out, err, w = run([exe] + list(queries), timeout=120)
+    res = []
+    for ln in out.split('\n'):
+        if ln.startswith('Q'):
+            head, _, rest = ln.partition(':')
+            parts = head.split()
+            if len(parts) >= 2 and parts[1] == 'EXCEPTION':
+                res.append((None, ln))
+            else:
+                res.append((int(parts[1]), rest.strip()))
+    return res
+
+
 # --------------------------------------------------------------------------
 # evidence / known findings
 
